@@ -13,6 +13,13 @@ OSub == {PtSeq[i] : i \in OIdx \cap (1..Len(PtSeq))}
 OSeq == SetToSortSeq(OSub, LexLess)
 \* the arms around each shared vertex in CCW order (computed once)
 Ccws == FoldLeft(LAMBDA acc, o : Append(acc, CcwSeq(Sub \ {o}, o)), <<>>, OSeq)
+\* caches of Wedges!WedgeRobust / ValidWedges per shared vertex: NZ[oi][i][j] <=> Det(o, s[i], s[j]) # 0
+Tab(n, F(_)) == FoldLeft(LAMBDA acc, i : Append(acc, F(i)), <<>>, [i \in 1..n |-> i])
+NZ == Tab(Len(OSeq), LAMBDA oi : Tab(Len(Ccws[oi]), LAMBDA i : Tab(Len(Ccws[oi]), LAMBDA j : Det(OSeq[oi], Ccws[oi][i], Ccws[oi][j]) # 0)))
+\* the piece sets of every wedge around each shared vertex
+PT == Tab(Len(OSeq), LAMBDA oi : Tab(Len(Ccws[oi]), LAMBDA i : Tab(Len(Ccws[oi]), LAMBDA j :
+            IF i = j THEN {} ELSE Pieces(i, j, Len(Ccws[oi])))))
+OK == Tab(Len(OSeq), LAMBDA oi : Tab(Len(Ccws[oi]), LAMBDA i : ~Parallel(OSeq[oi], Ccws[oi][i])))
 
 VARIABLE t
 Init == t \in {<<i>> : i \in 1..Len(OSeq)}
@@ -33,10 +40,11 @@ SeqIsCyclicOrder ==
     Len(t) = 2 => \A j \in 1..NS, k \in 1..NS : SeqIsCyclicOrderAt(S, O, t[2], j, k)
 Laws ==
     (Full /\ I0 # I2) =>
-        \A SA \in {Pieces(I0, I2, NS)}, SAc \in {Pieces(I2, I0, NS)} :
-            \A j0 \in 1..NS, j2 \in 1..NS :
-                j0 # j2 => \A SB \in {Pieces(j0, j2, NS)} : WedgeLawsOn(SA, SB, SAc, I0, I2, j0, j2, NS)
-Reflexive == (Full /\ I0 # I2) => WedgeRelationPos(I0, I2, I0, I2, NS) = WEquals
+        \A SA \in {PT[t[1]][I0][I2]}, SAc \in {PT[t[1]][I2][I0]} :
+            /\ WedgeLawsA(SA, SAc, I0, I2, NS)
+            /\ \A j0 \in 1..NS, j2 \in 1..NS :
+                    j0 # j2 => \A SB \in {PT[t[1]][j0][j2]} : WedgeLawsOn(SA, SB, SAc, I0, I2, j0, j2, NS)
+Reflexive == (Full /\ I0 # I2) => WedgeRelationPos(I0, I2, I0, I2, NS) = WEquals /\ PT[t[1]][I0][I2] = Pieces(I0, I2, NS)
 \* the point-level operators of Wedges.tla are the position-level ones (spot check: B = reversed A)
 PointLevel == (Full /\ I0 # I2) =>
                  /\ WedgeRelation(S[I0], O, S[I2], S[I2], S[I0], {S[I0], S[I2]}) = WIsDisjoint
@@ -44,18 +52,23 @@ PointLevel == (Full /\ I0 # I2) =>
 
 \* ---- expected answers ---------------------------------------------------------
 \* rel + 8*contains + 16*intersects + 32*robust + 64*valid + 128*degenerate
-Flags(j0, j2) ==
-    (IF WedgeRobust(S[I0], O, S[I2], S[j0], S[j2]) THEN 32 ELSE 0)
-    + (IF ValidWedges(S[I0], O, S[I2], S[j0], S[j2]) THEN 64 ELSE 0)
+NZP(i, j) == i = j \/ NZ[t[1]][i][j]
+RobustPos(j0, j2) == NZP(I0, I2) /\ NZP(I0, j0) /\ NZP(I0, j2) /\ NZP(I2, j0) /\ NZP(I2, j2) /\ NZP(j0, j2)
+ValidPos(j0, j2) == OK[t[1]][I0] /\ OK[t[1]][I2] /\ OK[t[1]][j0] /\ OK[t[1]][j2]
+Flags(j0, j2) == (IF RobustPos(j0, j2) THEN 32 ELSE 0) + (IF ValidPos(j0, j2) THEN 64 ELSE 0)
+\* the tables are the definitions of Wedges.tla (checked on the wedges B that share an arm with A)
+TablesAreDefinitions ==
+    Full => \A j \in 1..NS : /\ RobustPos(I0, j) <=> WedgeRobust(S[I0], O, S[I2], S[I0], S[j])
+                             /\ ValidPos(I0, j) <=> ValidWedges(S[I0], O, S[I2], S[I0], S[j])
 CodeOn(SA, j0, j2) ==
     IF I0 = I2 \/ j0 = j2 THEN 128 + Flags(j0, j2)
     ELSE (CHOOSE c \in {RelOfSets(SA, SB) + (IF SB \subseteq SA THEN 8 ELSE 0) + (IF SA \cap SB # {} THEN 16 ELSE 0)
-                            : SB \in {Pieces(j0, j2, NS)}} : TRUE)
+                            : SB \in {PT[t[1]][j0][j2]}} : TRUE)
          + Flags(j0, j2)
 
 Emit ==
     IF Full
-    THEN \A SA \in {IF I0 # I2 THEN Pieces(I0, I2, NS) ELSE {}} :
+    THEN \A SA \in {PT[t[1]][I0][I2]} :
             PrintT(<<"CASE", ToJson([op |-> "wedge", o |-> O, i0 |-> I0, i2 |-> I2, pts |-> S,
                                      res |-> [k \in 1..(NS * NS) |-> CodeOn(SA, ((k - 1) \div NS) + 1, ((k - 1) % NS) + 1)]])>>)
     ELSE TRUE
